@@ -1,5 +1,6 @@
 import RsModel.Lemmas.PosTree
 import RsModel.Lemmas.PosFinalTree
+import RsModel.Lemmas.HistoryPos
 /-!
 # C02 — reported generated positions are the true positions
 
@@ -102,5 +103,23 @@ example : ¬ IsPos [97, 10, 98, 99] ⟨2, 3⟩ := by
   simp only [List.length_cons, List.length_nil] at hk
   have : k = 0 ∨ k = 1 ∨ k = 2 ∨ k = 3 ∨ k = 4 := by omega
   rcases this with rfl | rfl | rfl | rfl | rfl <;> revert he <;> decide
+
+/-- **C02 over every call history**: `s` is any tree with CachedSource nodes (none beneath a ReplaceSource — `Src.NoCR`; distinct
+caches), cold at the start; `runCalls s calls σ` threads the store through ANY history `calls` of streaming calls (any length, the
+four option sets in any order; a `get_map` is the text-less call).  Whatever the `k`-th call is, the positions it reports are true:
+in normal mode every chunk stands where its text starts in `source()` and the returned end information is the position after the
+last character (`PosOK`, `info = adv startPos s.src`); in text-less mode every reported position is a position of `source()` and
+the end information likewise (`FinOK`).  No hypothesis on the store: that every map a CachedSource stored lies inside the text it
+is replayed on is proved (`stored_inside_normal`, `stored_map_ok`), not assumed as in `c02` / `c02_final` (`StoreHyp`).
+Hypotheses per option set as in the two-call theorems: columns = false needs `PosHyp false` only; (true, false) the domain of C02
+and of `c10_warm_tree` (`WarmHyp`); (true, true) the domain of C03 (`ModeHypC`, values below 2³¹ in cached subtrees). -/
+theorem c02_every_history (s : Src) (hk : s.NoCR) (hn : s.ids.Nodup) (σ : Store) (hc : Cold σ s.ids) (hw : s.WF)
+    (calls : List Opts) (k : Nat) (o : Opts) (hcall : calls[k]? = some o) :
+    ∃ r, (runCalls s calls σ).1[k]? = some r
+      ∧ (o.columns = false → s.PosHyp false →
+          (o.final = false → PosOK r ∧ r.info = adv startPos s.src) ∧ (o.final = true → FinOK s.src r))
+      ∧ (o = ⟨true, false⟩ → s.PosHyp true → s.WarmHyp → PosOK r ∧ r.info = adv startPos s.src)
+      ∧ (o = ⟨true, true⟩ → s.ModeHypC → s.SmallF → FinOK s.src r) :=
+  history_positions s hk hn σ hc hw calls k o hcall
 
 end Rs
